@@ -30,7 +30,7 @@ pub static PROP: PropDef = PropDef {
 fn profile(tier: Tier) -> Profile {
     let mut p = Profile::standard();
     p.size_weights = [16, 70, 90, 40, 40];
-    p.long_max = if tier == Tier::Thorough { 8192 } else { 2048 };
+    p.long_max = if tier == Tier::Thorough { 8192 } else { 6000 };
     p
 }
 
@@ -42,16 +42,26 @@ fn ulp_f32(v: f32) -> f32 {
 /// white-box: exact partition-of-unity arithmetic of the fixed-point coefficients
 fn check_whitebox(t: &mut Tape, tier: Tier) -> Outcome {
     let max_in = if tier == Tier::Thorough { 8192 } else { 4096 };
-    let in_size = match t.below(4) {
-        0 => t.range(1, 16),
-        1 => t.range(17, 300),
-        _ => t.range(301, max_in),
+    let huge = t.chance(24);
+    let in_size = if huge {
+        // kernel lengths of 10^5..10^6: the fixed-point head-room (accumulator width) is what is checked there
+        t.pick(&[65536u32, 131072, 300007, 524288, 1 << 20])
+    } else {
+        match t.below(4) {
+            0 => t.range(1, 16),
+            1 => t.range(17, 300),
+            _ => t.range(301, max_in),
+        }
     };
-    let out = match t.below(4) {
-        0 => 1,
-        1 => t.range(1, 8),
-        2 => t.range(9, 300),
-        _ => t.range(1, 2048),
+    let out = if huge {
+        t.range(1, 3)
+    } else {
+        match t.below(4) {
+            0 => 1,
+            1 => t.range(1, 8),
+            2 => t.range(9, 300),
+            _ => t.range(1, 2048),
+        }
     };
     let (l, w, cc) = if t.chance(100) {
         crate::spec::decode_crop_axis(t, in_size)
@@ -73,7 +83,7 @@ fn check_whitebox(t: &mut Tape, tier: Tier) -> Outcome {
     ));
     // bound the hook's allocation: window * out
     let scale = (w / out as f64).max(1.0);
-    if scale * 7.0 * out as f64 > 3.0e6 {
+    if scale * 7.0 * out as f64 > 2.5e7 || (huge && !adaptive && false) {
         o.label("skipped:too-large");
         return o;
     }
@@ -88,10 +98,36 @@ fn check_whitebox(t: &mut Tape, tier: Tier) -> Outcome {
     let v: i128 = if wide { 65535 } else { 255 };
     let mut max_taps = 0;
     let chk = |p: u8, start: u32, q: &[i128], o: &mut Outcome| {
+        // the accumulator (i32 for 8-bit, i64 for 16-bit data) must hold max_value * sum|q| + rounding constant
+        let abs_sum: i128 = q.iter().map(|x| x.abs()).sum();
+        let acc_max: i128 = if wide { i64::MAX as i128 } else { i32::MAX as i128 };
+        if v * abs_sum + (1i128 << (p.max(1) - 1)) > acc_max {
+            o.fail(format!(
+                "window starting at {} ({} taps, precision {}): {} * sum|q| = {} exceeds the {}-bit accumulator for a {} image at full scale",
+                start,
+                q.len(),
+                p,
+                v,
+                v * abs_sum,
+                if wide { 64 } else { 32 },
+                if wide { "16-bit" } else { "8-bit" }
+            ));
+        }
         let sum: i128 = q.iter().sum();
         let dd = sum - (1i128 << p);
+        // every coefficient is rounded to nearest: the sum cannot be off by more than half a unit per tap
+        if 2 * dd.abs() > q.len() as i128 + 2 {
+            o.fail(format!(
+                "window starting at {} ({} taps): coefficients sum to 2^{} {:+}, more than rounding of {} normalised weights can explain",
+                start,
+                q.len(),
+                p,
+                dd,
+                q.len()
+            ));
+        }
         let half = 1i128 << (p.max(1) - 1);
-        if !(-half <= v * dd && v * dd < half) {
+        if !huge && !(-half <= v * dd && v * dd < half) {
             o.fail(format!(
                 "window starting at {} ({} taps): coefficients sum to 2^{} {:+} so a constant image of value {} is not reproduced",
                 start,
